@@ -20,7 +20,7 @@ RULE = (
     "scripted driver that invokes the handed callables in an enumerated order: ALL sequences up to the depth over "
     "{objective, gradient, constraint value k, constraint Jacobian k} x {A, B (just beyond the 1e-3(1+|x|) separation), "
     "C}, for every combination of speculative / split_evaluations, constraint sets {none, two-sided non-linear, "
-    "non-linear + linear}, method classes gradient-based (slsqp), gradient-free (cobyla), population (differential "
+    "non-linear + linear, linear only}, method names in lower case and as mixed-case Plug-in/Method, method classes gradient-based (slsqp), gradient-free (cobyla), population (differential "
     "evolution, scalar and vectorized batches incl. shape changes at the same leading point). No state merging (the "
     "plug-in has hidden caches). Oracle: every returned value equals the value a fresh stack returns when asked only "
     "that request at that point; evaluator log: per visit of a point at most one function and one gradient evaluation, "
@@ -36,7 +36,8 @@ BOUNDS = {"quick": "depth 3 (depth 4 for the unconstrained alphabet)", "thorough
 POINTS = {"A": np.array([0.5, -0.25])}
 POINTS["B"] = POINTS["A"] + 2e-3 * (1 + np.abs(POINTS["A"]))
 POINTS["C"] = np.array([-1.0, 2.0])
-CONSETS = ["none", "nl", "nl+lin"]
+CONSETS = ["none", "nl", "nl+lin", "lin"]
+SPELLING = {"slsqp": "SciPy/SLSQP", "cobyla": "scipy/COBYLA", "differential_evolution": "scipy/Differential_Evolution"}
 
 
 def ensemble_fn() -> AffineEnsemble:
@@ -45,18 +46,19 @@ def ensemble_fn() -> AffineEnsemble:
     return AffineEnsemble(slopes, offsets, quad=[0.5, -0.25])
 
 
-def build_config(method: str, conset: str, spec: bool, split: bool, parallel: bool) -> dict[str, Any]:
+def build_config(method: str, conset: str, spec: bool, split: bool, parallel: bool, spelled: bool = False) -> dict[str, Any]:
+    method_string = SPELLING[method] if spelled else method
     config: dict[str, Any] = {
         "variables": ({"initial_values": POINTS["A"].tolist()} if method == "cobyla" else
                       {"initial_values": POINTS["A"].tolist(), "lower_bounds": [-5.0, -5.0], "upper_bounds": [5.0, 5.0]}),
         "realizations": {"weights": [1.0, 2.0]},
-        "optimizer": {"method": method, "speculative": spec, "split_evaluations": split, "parallel": parallel},
+        "optimizer": {"method": method_string, "speculative": spec, "split_evaluations": split, "parallel": parallel},
         "gradient": {"number_of_perturbations": 3, "perturbation_magnitudes": 0.25},
         "samplers": [{"method": "verif/design", "options": {"design": [[1.0, 0.0], [0.0, 1.0], [-0.5, 0.5]]}, "shared": True}],
     }
-    if conset != "none":
+    if conset in ("nl", "nl+lin"):
         config["nonlinear_constraints"] = {"lower_bounds": [-1.0], "upper_bounds": [3.0]}
-    if conset == "nl+lin":
+    if conset in ("nl+lin", "lin"):
         config["linear_constraints"] = {"coefficients": [[1.0, 2.0]], "lower_bounds": [-np.inf], "upper_bounds": [4.0]}
     return config
 
@@ -64,14 +66,14 @@ def build_config(method: str, conset: str, spec: bool, split: bool, parallel: bo
 class Stack:
     """A fresh real stack; `run(script)` drives it through the patched scipy entry point."""
 
-    def __init__(self, method: str, conset: str, spec: bool, split: bool, parallel: bool = False) -> None:
+    def __init__(self, method: str, conset: str, spec: bool, split: bool, parallel: bool = False, spelled: bool = False) -> None:
         from ropt.ensemble_evaluator import EnsembleEvaluator
         from ropt.optimization import EnsembleOptimizer
 
         self.method = method
-        self.config = validate(build_config(method, conset, spec, split, parallel))
+        self.config = validate(build_config(method, conset, spec, split, parallel, spelled))
         self.manager, _ = make_manager()
-        self.n_con = 0 if conset == "none" else 1
+        self.n_con = 1 if conset in ("nl", "nl+lin") else 0
         self.evaluator = TableEvaluator(ensemble_fn(), 1, self.n_con)
         self.ens = EnsembleEvaluator(self.config, None, self.evaluator, self.manager)
         self.opt = EnsembleOptimizer(self.config, self.ens, self.manager)
@@ -154,7 +156,7 @@ def fresh_value(method: str, conset: str, request: Any, parallel: bool) -> Any:
 
 
 def request_alphabet(method: str, conset: str) -> list[Any]:
-    k = {"none": 0, "nl": 2, "nl+lin": 3}[conset]
+    k = {"none": 0, "nl": 2, "nl+lin": 3, "lin": 1}[conset]
     out: list[Any] = []
     for pt in ("A", "B", "C"):
         out.append(("f", pt))
@@ -180,7 +182,7 @@ def judge(case: dict[str, Any]) -> Judgement:
     method, conset, spec, split = case["method"], case["conset"], case["spec"], case["split"]
     parallel = case.get("parallel", False)
     script = [tuple(tuple(x) if isinstance(x, list) else x for x in r) for r in case["script"]]
-    stack = Stack(method, conset, spec, split, parallel).run(script)
+    stack = Stack(method, conset, spec, split, parallel, bool(case.get("spelled"))).run(script)
     j.transitions = len(script)
     j.outcome = f"{method}:{conset}:spec={spec}:split={split}:len={len(script)}"
     if stack.error is not None:
@@ -237,6 +239,16 @@ def shards(tier: str, seed: int) -> list[dict[str, Any]]:
                 for split in (False, True):
                     for first in range(len(alphabet)):
                         out.append({"method": method, "conset": conset, "spec": spec, "split": split, "depth": d, "first": first})
+    # the same, with the method given as "<Plug-in>/<Method>" in mixed case (names are case-insensitive), depth 2
+    for method in ("slsqp", "cobyla"):
+        alphabet = request_alphabet(method, "nl")
+        for spec in (False, True):
+            for first in range(len(alphabet)):
+                out.append({"method": method, "conset": "nl", "spec": spec, "split": False, "depth": 2, "first": first, "spelled": True})
+    for spec in (False, True):
+        for first in range(len(DE_SCALAR)):
+            out.append({"method": "differential_evolution", "conset": "nl+lin", "spec": spec, "split": False, "depth": 2, "first": first,
+                        "parallel": False, "spelled": True})
     for spec in (False, True):
         for split in (False, True):
             for first in range(len(DE_SCALAR)):
@@ -261,9 +273,9 @@ def run_shard(shard: dict[str, Any]) -> core.ShardResult:
         for rest in itertools.product(alphabet, repeat=n):
             script = [first, *rest]
             case = {"method": method, "conset": conset, "spec": shard["spec"], "split": shard["split"], "parallel": parallel,
-                    "script": [list(r) for r in script]}
+                    "script": [list(r) for r in script], "spelled": bool(shard.get("spelled"))}
             j = judge(case)
-            rec.add((method, conset, shard["spec"], shard["split"], parallel, tuple(script)), case, j)
+            rec.add((method, conset, shard["spec"], shard["split"], parallel, bool(shard.get("spelled")), tuple(script)), case, j)
     return rec.finish()
 
 
